@@ -1537,24 +1537,49 @@ Definition KI (st : kstate) : Prop :=
   NoDup (keys (k_src st)) /\
   (forall y, src_mem (k_src st) y = live st y) /\
   NE (k_src st) /\
+  (* the star-args is named like no positional-or-keyword / untouched parameter;
+     in partial mode a keyword-only parameter created by a bound keyword may
+     carry its name (then _mask keeps the entry when the star goes) *)
   (forall v, k_va st = Some v ->
-     ova = Some v /\ memn (pname v) (k_pok st) = false /\ memn (pname v) (k_kwo st) = false /\
+     ova = Some v /\ memn (pname v) (k_pok st) = false /\
+     (pm = None -> memn (pname v) (k_kwo st) = false) /\
      memn (pname v) fx = false) /\
   (pm = None -> forall y, (cntn y (k_pok st) + cntn y (k_kwo st) + cntn y fx <= 1)%nat).
 
-Lemma va_false_of st x : KI st -> (memn x (k_pok st) = true \/ memn x (k_kwo st) = true \/ memn x fx = true) ->
+Lemma va_false_of st x : KI st ->
+  (memn x (k_pok st) = true \/ (pm = None /\ memn x (k_kwo st) = true) \/ memn x fx = true) ->
   memn x (opt_list (k_va st)) = false.
 Proof.
   intros (_ & _ & _ & K4 & _) H. rewrite memn_opt. destruct (k_va st) as [v|]; [|reflexivity].
   destruct (N.eqb_spec x (pname v)) as [->|]; [|reflexivity].
-  destruct (K4 v eq_refl) as (_ & A & B & C). rewrite A, B, C in H. destruct H as [H|[H|H]]; discriminate.
+  destruct (K4 v eq_refl) as (_ & A & B & C). rewrite A, C in H.
+  destruct H as [H|[[Hn H]|H]]; try discriminate. rewrite (B Hn) in H. discriminate.
+Qed.
+
+(* the star's entry goes unless a keyword-only parameter carries its name *)
+Definition vin (kwo : list param) (o : option param) : bool :=
+  match o with Some v => memn (pname v) kwo | None => false end.
+
+Lemma isSome_find x ps : isSome (find_param x ps) = memn x ps.
+Proof.
+  induction ps as [|p ps IH]; [reflexivity|]. cbn [find_param]. rewrite memn_cons.
+  destruct (N.eqb x (pname p)); [reflexivity | exact IH].
+Qed.
+
+Lemma pop_unless_eq kwo o m :
+  match o with
+  | Some v => if isSome (find_param (pname v) kwo) then m else src_pop m (pname v)
+  | None => m
+  end = pop_star (negb (vin kwo o)) o m.
+Proof.
+  destruct o as [v|]; [|reflexivity]. cbn [vin pop_star]. rewrite isSome_find.
+  destruct (memn (pname v) kwo); reflexivity.
 Qed.
 
 Lemma mask_name_KI hv st kv st' :
-  KI st -> (pm <> None -> forall v, ova = Some v -> fst kv <> pname v) ->
-  mask_name pm hv st kv = Ok st' -> KI st'.
+  KI st -> mask_name pm hv st kv = Ok st' -> KI st'.
 Proof.
-  intros HK Hx. pose proof HK as (K1 & K2 & K3 & K4 & K5). unfold mask_name.
+  intros HK. pose proof HK as (K1 & K2 & K3 & K4 & K5). unfold mask_name.
   set (x := fst kv) in *.
   destruct (mem x (k_consumed st)); [discriminate|].
   destruct (split_at_name x (k_pok st)) as [[[before p] after]|] eqn:Es.
@@ -1567,29 +1592,55 @@ Proof.
     { intros y. unfold live. rewrite Hpok, memn_app, memn_cons, Hp. btauto. }
     assert (Hva : forall y, memn y (opt_list (k_va st)) = true ->
                    memn y before = false /\ N.eqb y x = false /\ memn y after = false /\
-                   memn y (k_kwo st) = false /\ memn y fx = false).
+                   (pm = None -> memn y (k_kwo st) = false) /\ memn y fx = false /\
+                   vin (k_kwo st) (k_va st) = memn y (k_kwo st)).
     { intros y Hy. destruct (k_va st) as [v|] eqn:Ev; [|discriminate Hy].
       rewrite memn_opt in Hy. apply N.eqb_eq in Hy. subst y.
       destruct (K4 v eq_refl) as (_ & A & B & C).
       rewrite Hpok, memn_app, memn_cons, Hp in A.
       destruct (memn (pname v) before), (N.eqb (pname v) x), (memn (pname v) after); try discriminate A.
-      auto. }
+      cbn [vin]. repeat split; auto. }
+    (* the star's name among the new keyword-only parameters: only the old ones matter *)
+    assert (Hvin : forall extra, (forall y, memn y extra = true -> memn y after = true \/ N.eqb y x = true) ->
+              forall kwo2, (forall y, memn y kwo2 = memn y (k_kwo st) || memn y extra) ->
+              vin kwo2 (k_va st) = vin (k_kwo st) (k_va st)).
+    { intros extra Hex kwo2 Hk2. destruct (k_va st) as [v|] eqn:Ev; [|reflexivity]. cbn [vin].
+      rewrite Hk2. destruct (memn (pname v) extra) eqn:Ee; [|apply orb_false_r].
+      exfalso. destruct (Hva (pname v)) as (_ & B & C & _); [rewrite memn_opt; apply N.eqb_refl|].
+      destruct (Hex _ Ee) as [H|H]; [rewrite C in H | rewrite B in H]; discriminate. }
     destruct pm as [pobj|] eqn:Epm.
     + intros E; inversion E; subst st'. clear E.
-      fold (pop_star true (k_va st) (k_src st)).
+      rewrite pop_unless_eq.
+      set (kwo2 := od_set (od_update (k_kwo st) (map (set_kind KO) after))
+                          (set_def (Some (snd kv)) (set_kind KO p))).
+      assert (Hk2 : forall y, memn y kwo2 = memn y (k_kwo st) || memn y (p :: after)).
+      { intros y. unfold kwo2. rewrite memn_od_set, memn_od_update, memn_map_kind, memn_cons.
+        change (pname (set_def (Some (snd kv)) (set_kind KO p))) with (pname p). btauto. }
+      assert (Ev2 : vin kwo2 (k_va st) = vin (k_kwo st) (k_va st)).
+      { apply (Hvin (p :: after)); [|exact Hk2]. intros y. rewrite memn_cons, Hp. intros H.
+        apply orb_true_iff in H. tauto. }
+      rewrite Ev2.
       unfold KI. cbn [k_src k_pok k_va k_kwo]. split; [|split; [|split; [|split]]].
       * apply pop_star_nodup. exact K1.
-      * intros y. rewrite pop_star_mem, popped_opt, K2, Hlive. unfold live. cbn [k_pok k_va k_kwo opt_list andb].
-        rewrite memn_od_set, memn_od_update, memn_map_kind, memn_nil.
-        change (pname (set_def (Some (snd kv)) (set_kind KO p))) with (pname p). rewrite Hp.
+      * intros y. rewrite pop_star_mem, popped_opt, K2, Hlive. unfold live. cbn [k_pok k_va k_kwo opt_list].
+        rewrite Hk2, memn_cons, Hp, memn_nil.
         destruct (memn y (opt_list (k_va st))) eqn:EV.
-        -- destruct (Hva y EV) as (A & B & C & D & F). rewrite A, B, C, D, F. reflexivity.
-        -- cbn [negb]. btauto.
+        -- destruct (Hva y EV) as (A & B & C & _ & F & G). rewrite A, B, C, F, G.
+           destruct (memn y (k_kwo st)); reflexivity.
+        -- rewrite andb_false_r. cbn [negb]. btauto.
       * apply NE_pop_star. exact K3.
       * intros v H; discriminate H.
       * intros H; congruence.
     + intros E; inversion E; subst st'. clear E.
-      fold (pop_star true (k_va st) (src_pop (k_src st) x)).
+      rewrite pop_unless_eq.
+      assert (Hk2 : forall y, memn y (od_update (k_kwo st) (map (set_kind KO) after))
+                              = memn y (k_kwo st) || memn y after).
+      { intros y. rewrite memn_od_update, memn_map_kind. reflexivity. }
+      assert (Ev2 : vin (od_update (k_kwo st) (map (set_kind KO) after)) (k_va st) = false).
+      { rewrite (Hvin after); [| intros y H; left; exact H | exact Hk2].
+        destruct (k_va st) as [v|] eqn:Ev; [|reflexivity]. cbn [vin].
+        destruct (K4 v eq_refl) as (_ & _ & B & _). apply B. reflexivity. }
+      rewrite Ev2. cbn [negb].
       pose proof (K5 eq_refl x) as Hc. rewrite Hpok, cntn_app, cntn_cons, Hp, N.eqb_refl in Hc.
       assert (Z1 : memn x before = false) by (apply cntn_memn_false; lia).
       assert (Z2 : memn x after = false) by (apply cntn_memn_false; lia).
@@ -1598,11 +1649,11 @@ Proof.
       unfold KI. cbn [k_src k_pok k_va k_kwo]. split; [|split; [|split; [|split]]].
       * apply pop_star_nodup. apply nodup_pop. exact K1.
       * intros y. rewrite pop_star_mem, popped_opt, src_mem_pop, K2, Hlive. unfold live.
-        cbn [k_pok k_va k_kwo opt_list andb]. rewrite memn_od_update, memn_map_kind, memn_nil.
+        cbn [k_pok k_va k_kwo opt_list andb]. rewrite Hk2, memn_nil.
         destruct (N.eqb_spec y x) as [->|Hy].
         -- rewrite Z1, Z2, Z3, Z4, Hvx. reflexivity.
         -- destruct (memn y (opt_list (k_va st))) eqn:EV.
-           ++ destruct (Hva y EV) as (A & B & C & D & F). rewrite A, C, D, F. reflexivity.
+           ++ destruct (Hva y EV) as (A & B & C & D & F & _). rewrite A, C, (D eq_refl), F. reflexivity.
            ++ cbn [negb]. btauto.
       * apply NE_pop_star. apply NE_pop. exact K3.
       * intros v H; discriminate H.
@@ -1613,19 +1664,16 @@ Proof.
     destruct (find_param x (k_kwo st)) as [p|] eqn:Ef.
     + destruct (find_param_In _ _ _ Ef) as [Hin Hp].
       assert (Hxin : memn x (k_kwo st) = true) by (rewrite <- Hp; apply memn_intro; exact Hin).
-      pose proof (va_false_of st x HK (or_intror (or_introl Hxin))) as Hvx.
       destruct pm as [pobj|] eqn:Epm.
       * intros E; inversion E; subst st'. clear E.
         unfold KI. cbn [k_src k_pok k_va k_kwo]. split; [|split; [|split; [|split]]]; try assumption.
         -- intros y. rewrite K2. unfold live. cbn [k_pok k_va k_kwo]. rewrite memn_od_set.
            change (pname (set_def (Some (snd kv)) (set_kind KO p))) with (pname p). rewrite Hp.
            destruct (N.eqb_spec y x) as [->|Hy]; [rewrite Hxin|]; btauto.
-        -- intros v H. destruct (K4 v H) as (A0 & A & B & C). repeat split; try assumption.
-           rewrite memn_od_set. change (pname (set_def (Some (snd kv)) (set_kind KO p))) with (pname p).
-           rewrite Hp, B. cbn [orb].
-           destruct (N.eqb_spec (pname v) x) as [E|E]; [|reflexivity]. rewrite <- E, B in Hxin. discriminate.
+        -- intros v H. destruct (K4 v H) as (A0 & A & B & C). repeat split; try assumption. intros Hn; congruence.
         -- intros H; congruence.
       * intros E; inversion E; subst st'. clear E.
+        pose proof (va_false_of st x HK (or_intror (or_introl (conj Epm Hxin)))) as Hvx.
         pose proof (K5 eq_refl x) as Hc. apply memn_cntn in Hxin.
         assert (Z4 : memn x fx = false) by (apply cntn_memn_false; lia).
         unfold KI. cbn [k_src k_pok k_va k_kwo]. split; [|split; [|split; [|split]]].
@@ -1634,7 +1682,7 @@ Proof.
            destruct (N.eqb_spec y x) as [->|Hy]; [rewrite Es, Hvx, Z4|]; btauto.
         -- apply NE_pop. exact K3.
         -- intros v H. destruct (K4 v H) as (A0 & A & B & C). repeat split; try assumption.
-           rewrite memn_remove, B. reflexivity.
+           intros _. rewrite memn_remove, (B eq_refl). reflexivity.
         -- intros _ y. pose proof (K5 eq_refl y) as Hy. pose proof (cntn_remove_le y x (k_kwo st)). lia.
     + apply find_param_none in Ef. destruct (negb hv); [discriminate|].
       destruct pm as [pobj|] eqn:Epm.
@@ -1645,25 +1693,18 @@ Proof.
            cbn [pname]. btauto.
         -- intros y. rewrite src_mem_set, src_get_set. destruct (N.eqb y x); [discriminate|].
            rewrite orb_false_r. apply K3.
-        -- intros v H. destruct (K4 v H) as (A0 & A & B & C). repeat split; try assumption.
-           rewrite memn_od_set. cbn [pname]. rewrite B. cbn [orb].
-           destruct (N.eqb_spec (pname v) x) as [E|E]; [|reflexivity].
-           exfalso. apply (Hx ltac:(congruence) v A0). symmetry. exact E.
+        -- intros v H. destruct (K4 v H) as (A0 & A & B & C). repeat split; try assumption. intros Hn; congruence.
         -- intros H; congruence.
       * intros E; inversion E; subst st'. clear E. exact HK.
 Qed.
 
 Lemma mask_names_KI hv kvs : forall st st',
-  KI st -> (pm <> None -> forall v, ova = Some v -> ~ In (pname v) (map fst kvs)) ->
-  mask_names pm hv st kvs = Ok st' -> KI st'.
+  KI st -> mask_names pm hv st kvs = Ok st' -> KI st'.
 Proof.
-  induction kvs as [|kv kvs IH]; intros st st' Hst Hx; cbn [mask_names].
+  induction kvs as [|kv kvs IH]; intros st st' Hst; cbn [mask_names].
   - intros E; inversion E; subst; exact Hst.
   - intros E. apply bind_ok in E. destruct E as [st1 [E1 E2]].
-    eapply IH; [| |exact E2].
-    + eapply mask_name_KI; [exact Hst | | exact E1].
-      intros Hpm v Hv Heq. apply (Hx Hpm v Hv). left. exact Heq.
-    + intros Hpm v Hv Hin. apply (Hx Hpm v Hv). right. exact Hin.
+    eapply IH; [|exact E2]. eapply mask_name_KI; [exact Hst | exact E1].
 Qed.
 End MaskInv.
 
@@ -1681,14 +1722,14 @@ Proof. cbn [opt_list]. rewrite cntn_cons, N.eqb_refl, cntn_nil. reflexivity. Qed
 Ltac cnt_case b E := destruct b eqn:E; [apply memn_cntn in E|].
 
 (* C08 keys / non-empty for _mask in both modes.  In partial mode (pm = Some _)
-   the keyword names bound by the partial must not contain the name of the
-   star-args parameter (see sig_partial_keys_refuted below) and the star-kwargs
-   parameter is not hidden (signature(partial) never hides it). *)
+   the star-kwargs parameter is not hidden (signature(partial) never hides it).
+   (Before the repair of _mask the bound keyword names also had to avoid the name
+   of the star-args parameter: partial(f, args=7, a=7) for f(a, *args, **kw) lost
+   the entry of the new keyword-only `args`; see sig_partial_star_named_keyword.) *)
 Theorem mask_gen_src_ok s n h named0 pm r :
   mask_gen s n h named0 pm = Ok r ->
   valid_sig (params s) = true -> src_ok s ->
-  (pm <> None -> (h_kwargs h || h_varkwargs h) = false /\
-     forall v, varargs (sort_params s) = Some v -> ~ In (pname v) (map fst named0)) ->
+  (pm <> None -> (h_kwargs h || h_varkwargs h) = false) ->
   src_ok r.
 Proof.
   intros E Hv Hs Hpm. unfold mask_gen in E.
@@ -1766,19 +1807,19 @@ Proof.
   { intros y. destruct C3k as [-> | ->]; [rewrite cntn_nil; lia | lia]. }
   apply bind_ok in E. destruct E as [st [Est E]].
   set (fx := pos1 ++ opt_list (varkwargs so)).
-  assert (HK0 : KI pm fx (varargs so) (mkK pok2 va1 kwo2 src3 consumed)).
-  { unfold KI. cbn [k_src k_pok k_va k_kwo]. split; [exact C3a|]. split; [|split; [exact C3b|split]].
+  assert (HK0 : forall cons, KI pm fx (varargs so) (mkK pok2 va1 kwo2 src3 cons)).
+  { intros cons. unfold KI. cbn [k_src k_pok k_va k_kwo]. split; [exact C3a|]. split; [|split; [exact C3b|split]].
     - intros y. rewrite C3c. unfold live, fx. cbn [k_pok k_va k_kwo]. rewrite memn_app. btauto.
     - intros v Hv0. subst va1. destruct C2v as [C|C]; [discriminate C|].
       pose proof (Hcnt (pname v)) as Hy. rewrite <- C, cntn_opt_self in Hy.
       pose proof (Hp2 (pname v)). pose proof (Hk2 (pname v)).
       split; [symmetry; exact C|]. unfold fx.
-      repeat split; apply cntn_memn_false; rewrite ?cntn_app; lia.
+      split; [apply cntn_memn_false; lia|]. split; [intros _; apply cntn_memn_false; lia|].
+      apply cntn_memn_false. rewrite cntn_app. lia.
     - intros _ y. pose proof (Hcnt y). pose proof (Hp2 y). pose proof (Hk2 y).
       unfold fx. rewrite cntn_app. lia. }
   assert (HK : KI pm fx (varargs so) st).
-  { eapply mask_names_KI; [exact HK0 | | exact Est].
-    intros Hn v Hv0. destruct (Hpm Hn) as [_ Hnot]. destruct C3n as [-> | ->]; [intros [] | apply Hnot; exact Hv0]. }
+  { eapply mask_names_KI; [apply HK0 | exact Est]. }
   destruct HK as (K1 & K2 & K3 & K4 & K5).
   destruct (if h_kwargs h || h_varkwargs h then _ else _) as [vk3 src4] eqn:Evk.
   assert (C4 : wf_src src4 (names_of (flatten (mkSorted pos1 (k_pok st) (k_va st) (k_kwo st) vk3 src4 [])))).
@@ -1790,7 +1831,7 @@ Proof.
     destruct (h_kwargs h || h_varkwargs h) eqn:Eh; inversion Evk; subst; clear Evk.
     - rewrite pop_star_true.
       assert (Hnone : pm = None).
-      { destruct pm as [pobj|]; [|reflexivity]. destruct (Hpm ltac:(discriminate)) as [A _]. discriminate A. }
+      { destruct pm as [pobj|]; [|reflexivity]. pose proof (Hpm ltac:(discriminate)) as A. discriminate A. }
       assert (KK : forall y, src_mem (pop_star true (varkwargs so) (k_src st)) y =
                      memn y (k_pok st) || memn y (opt_list (k_va st)) || memn y (k_kwo st)
                      || memn y pos1 || memn y (opt_list None)).
@@ -1823,12 +1864,10 @@ Proof.
 Qed.
 
 Theorem sig_partial_src_ok s n kw pobj r :
-  sig_partial s n kw pobj = Ok r -> valid_sig (params s) = true -> src_ok s ->
-  (forall v, varargs (sort_params s) = Some v -> ~ In (pname v) (map fst kw)) ->
-  src_ok r.
+  sig_partial s n kw pobj = Ok r -> valid_sig (params s) = true -> src_ok s -> src_ok r.
 Proof.
-  unfold sig_partial. intros E Hv Hs Hkw. eapply mask_gen_src_ok; [exact E | exact Hv | exact Hs|].
-  intros _. split; [reflexivity | exact Hkw].
+  unfold sig_partial. intros E Hv Hs. eapply mask_gen_src_ok; [exact E | exact Hv | exact Hs|].
+  intros _. reflexivity.
 Qed.
 
 (* forwards = embed o mask; in partial mode the inner parameters get defaults first *)
@@ -1913,19 +1952,18 @@ Proof.
   intros (_ & H & _). specialize (H 1). vm_compute in H. discriminate H.
 Qed.
 
-(* signature(functools.partial(f, args=7, a=7)) for f(a, *args, **kw): the new
-   keyword-only parameter `args` loses its entry when *args is removed *)
-Theorem sig_partial_keys_refuted :
-  exists s kw pobj r,
-    valid_sig (params s) = true /\ src_ok s /\ sig_partial s 0 kw pobj = Ok r /\
-    mem 9 (names_of (params r)) = true /\ src_mem (srcs r) 9 = false /\ ~ src_ok r.
+(* signature(functools.partial(f, args=7, a=7)) for f(a, *args, **kw): before
+   the repair of _mask the new keyword-only parameter `args` lost its entry when
+   *args was removed; now the entry stays and names the partial object *)
+Example sig_partial_star_named_keyword :
+  exists r, sig_partial (dsig 100 [bp 1 PK; bp 9 VP; bp 10 VK]) 0 [(9, 7); (1, 7)] 200 = Ok r /\
+    names_of (params r) = [9; 1; 10] /\ map pkind (params r) = [KO; KO; VK] /\
+    srcs r = [(1, [100]); (9, [200]); (10, [100])] /\ src_ok r.
 Proof.
-  exists (dsig 100 [bp 1 PK; bp 9 VP; bp 10 VK]), [(9, 7); (1, 7)], 200.
-  eexists.
-  split; [vm_compute; reflexivity|].
-  split; [apply dsig_src_ok; vm_compute; reflexivity|].
-  split; [vm_compute; reflexivity|]. split; [vm_compute; reflexivity|]. split; [vm_compute; reflexivity|].
-  intros (_ & H & _). specialize (H 9). vm_compute in H. discriminate H.
+  eexists. split; [vm_compute; reflexivity|]. split; [reflexivity|]. split; [reflexivity|].
+  split; [reflexivity|].
+  eapply (sig_partial_src_ok (dsig 100 [bp 1 PK; bp 9 VP; bp 10 VK]) 0 [(9, 7); (1, 7)] 200);
+    [vm_compute; reflexivity | vm_compute; reflexivity | apply dsig_src_ok; vm_compute; reflexivity].
 Qed.
 
 (* duplicate-freedom of the lists is false (DESIGN section 6 #10): a callable
@@ -1966,12 +2004,8 @@ Proof. eexists. split; vm_compute; reflexivity. Qed.
 
 Example sig_partial_src_ok_sat :
   exists r, sig_partial (dsig 100 [bp 1 PK; bp 2 PK; bp 9 VP; bp 10 VK]) 1 [(2, 7); (5, 8)] 200 = Ok r /\
-            (forall v, varargs (sort_params (dsig 100 [bp 1 PK; bp 2 PK; bp 9 VP; bp 10 VK])) = Some v ->
-                       ~ In (pname v) (map fst [(2, 7); (5, 8)])).
-Proof.
-  eexists. split; [vm_compute; reflexivity|]. intros v Hv. vm_compute in Hv. inversion Hv; subst.
-  cbn. intros [H|[H|[]]]; discriminate H.
-Qed.
+            srcs r = [(2, [100]); (10, [100]); (5, [200])].
+Proof. eexists. split; vm_compute; reflexivity. Qed.
 
 (* truthful for embed: a callable listed for x in the result is listed for x
    in the outer or in the inner signature *)
@@ -2033,7 +2067,7 @@ Print Assumptions mask_src_ok.
 Print Assumptions sig_partial_src_ok.
 Print Assumptions forwards_src_ok.
 Print Assumptions embed_src_ok_refuted.
-Print Assumptions sig_partial_keys_refuted.
+Print Assumptions sig_partial_star_named_keyword.
 Print Assumptions merge_nodup_refuted.
 Print Assumptions merge_src_ok_sat.
 Print Assumptions embed_src_ok_sat.
